@@ -19,6 +19,12 @@ REPLAYS = os.path.join(_OUT or ROOT, 'replays')
 FINDINGS = os.path.join(ROOT, 'known_findings.json')
 
 
+def sseed(obj):
+    """stable seed from a structural key (independent of PYTHONHASHSEED)"""
+    import zlib
+    return zlib.crc32(repr(obj).encode())
+
+
 class Violation:
     def __init__(self, key, what, runner=None, args=None, reproduced=None, detail=None, kind='bounded', function=None,
                  obligation=None):
